@@ -1420,6 +1420,29 @@ fn replay_case(out: &mut Out, case: &ConcCase, kind: &str, known_class: Option<&
 }
 
 
+
+/// lines of a child's stdout; if the child prints nothing for `idle` seconds it is killed (a real
+/// thread spinning forever inside the code under test must not hang the harness) and the iterator ends
+fn child_lines(child: &mut std::process::Child, idle: u64) -> impl Iterator<Item = String> {
+    use std::io::BufRead;
+    let out = child.stdout.take().unwrap();
+    let (tx, rx) = std::sync::mpsc::channel::<String>();
+    std::thread::spawn(move || {
+        for line in std::io::BufReader::new(out).lines().map_while(Result::ok) {
+            if tx.send(line).is_err() { break; }
+        }
+    });
+    let pid = child.id();
+    std::iter::from_fn(move || match rx.recv_timeout(Duration::from_secs(idle)) {
+        Ok(l) => Some(l),
+        Err(std::sync::mpsc::RecvTimeoutError::Timeout) => {
+            let _ = std::process::Command::new("kill").args(["-9", &pid.to_string()]).status();
+            None
+        }
+        Err(_) => None,
+    })
+}
+
 /// the sequential inputs of a run (corpus + generated), a pure function of (seed, tier)
 fn seq_inputs(seed: u64, thorough: bool) -> (Vec<(usize, Vec<Act>, &'static str)>, std::collections::BTreeMap<String, u64>, usize) {
     let mut rng = Rng::new(seed);
@@ -1493,7 +1516,6 @@ fn child_seq(args: &[String]) -> ! {
 }
 
 fn run_seq_children(out: &mut Out, tier: &str, seed: u64, thorough: bool) -> (std::collections::BTreeMap<String, u64>, usize, usize) {
-    use std::io::BufRead;
     let (inputs, dist, nseq) = seq_inputs(seed, thorough);
     let exe = std::env::current_exe().unwrap();
     let mut skip = 0usize;
@@ -1502,9 +1524,8 @@ fn run_seq_children(out: &mut Out, tier: &str, seed: u64, thorough: bool) -> (st
         let mut child = std::process::Command::new(&exe)
             .args(["--child-seq", tier, &seed.to_string(), &skip.to_string()])
             .stdout(std::process::Stdio::piped()).stderr(std::process::Stdio::null()).spawn().expect("spawn child");
-        let rd = std::io::BufReader::new(child.stdout.take().unwrap());
         let mut pending: Option<usize> = None;
-        for line in rd.lines().map_while(Result::ok) {
+        for line in child_lines(&mut child, 40) {
             if let Some(r) = line.strip_prefix("B ") { pending = r.trim().parse().ok(); }
             else if let Some(r) = line.strip_prefix("E ") {
                 if let Ok(v) = serde_json::from_str::<serde_json::Value>(r) {
@@ -1598,7 +1619,6 @@ fn child_replay(args: &[String]) -> ! {
 }
 
 fn run_replay_children(out: &mut Out, tier: &str, seed: u64, thorough: bool) -> usize {
-    use std::io::BufRead;
     let inputs = replay_inputs(seed, thorough);
     let exe = std::env::current_exe().unwrap();
     let total_budget = if thorough { 120u64 } else { 12 };
@@ -1612,9 +1632,8 @@ fn run_replay_children(out: &mut Out, tier: &str, seed: u64, thorough: bool) -> 
         let mut child = std::process::Command::new(&exe)
             .args(["--child-replay", tier, &seed.to_string(), &skip.to_string(), &left.max(1).to_string()])
             .stdout(std::process::Stdio::piped()).stderr(std::process::Stdio::null()).spawn().expect("spawn child");
-        let rd = std::io::BufReader::new(child.stdout.take().unwrap());
         let mut pending: Option<usize> = None;
-        for line in rd.lines().map_while(Result::ok) {
+        for line in child_lines(&mut child, 40) {
             if let Some(r) = line.strip_prefix("B ") { pending = r.trim().parse().ok(); }
             else if let Some(r) = line.strip_prefix("E ") {
                 if let Ok(v) = serde_json::from_str::<serde_json::Value>(r) { out.push(case_from_json(&v)); done += 1; }
@@ -1692,14 +1711,12 @@ fn child_stress(args: &[String]) -> ! {
 }
 
 fn run_stress_child(out: &mut Out, tier: &str, seed: u64) -> u64 {
-    use std::io::BufRead;
     let exe = std::env::current_exe().unwrap();
     let mut child = std::process::Command::new(&exe).args(["--child-stress", tier, &seed.to_string()])
         .stdout(std::process::Stdio::piped()).stderr(std::process::Stdio::null()).spawn().expect("spawn child");
-    let rd = std::io::BufReader::new(child.stdout.take().unwrap());
     let mut pending: Option<String> = None;
     let mut n = 0u64;
-    for line in rd.lines().map_while(Result::ok) {
+    for line in child_lines(&mut child, 60) {
         if let Some(r) = line.strip_prefix("B ") { pending = Some(r.to_string()); }
         else if let Some(r) = line.strip_prefix("E ") {
             if let Ok(v) = serde_json::from_str::<serde_json::Value>(r) { out.push(case_from_json(&v)); n += 1; }
